@@ -235,6 +235,11 @@ def mirror_extend_low_side(array: jax.Array, axis: int, parity: int, on_plane: b
     """
     if not on_plane:
         return parity * jnp.flip(array, axis=axis)
+    if array.shape[axis] == 1:
+        # Only the plane row was kept. It is its own mirror, and the single reconstructed cell below it
+        # has no partner in the kept half either, so it repeats its neighbour: the plane row itself.
+        # (Without this the block below is empty and the axis is not doubled.)
+        return array
     mirrored = parity * jnp.flip(_slice_axis(array, axis, 1), axis=axis)
     return jnp.concatenate([_slice_axis(mirrored, axis, 0, 1), mirrored], axis=axis)
 
